@@ -80,7 +80,7 @@ def gen_geometry(rng, m, ground):
     touch z == 0 are grounded."""
     r = rng.choice([0.0005, 0.001, 0.001, 0.002, 0.005, 0.01])
     h = rng.choice([0.0, 0.0, 3.0, 7.5]) if not ground else rng.choice([4.0, 8.0, 12.5])
-    L = rng.choice([5.0, 10.0, 21.414285, 16.0])
+    L = rng.choice([5.0, 10.0, 21.414285, 16.0, 5.0, 10.0, 0.5, 1.0, 2.0])   # HF ... UHF sized structures
     n = rng.randrange(4, 11)
     free_t = ['dipole', 'vee', 'tee_free', 'star', 'two_wires', 'tapered',
               'arc', 'helix', 'loop', 'bent3', 'radii2', 'array', 'zigzag', 'mixed', 'array_tail',
@@ -580,7 +580,22 @@ def variant_model(rng, m):
     v = copy.deepcopy(m)
     how = rng.choice(['scale', 'scale', 'same', 'load_value', 'voltage', 'translate', 'rotate', 'drop_loads',
                       'taper', 'segments', 'radius', 'media_form', 'media_form',
-                      'toggle_ground', 'toggle_ground', 'other_ground', 'reattach', 'reattach'])
+                      'toggle_ground', 'toggle_ground', 'other_ground', 'reattach', 'reattach', 'taper_limits'])
+    if any(x == '--taper-wire' for x in v.argv_geo) and rng.random() < 0.4:
+        how = 'taper_limits'
+    if how == 'taper_limits':
+        # the same taper with / without its optional min and max limits
+        ti = [i for i, x in enumerate(v.argv_geo) if x == '--taper-wire']
+        if ti:
+            i = ti[0] + 1
+            parts = v.argv_geo[i].split(',')
+            if len(parts) > 2:
+                v.argv_geo[i] = ','.join(parts[:2])
+            else:
+                v.argv_geo[i] = ','.join(parts + [_g(rng.choice([0.05, 0.1, 0.2]))] +
+                                         ([_g(rng.choice([0.5, 1.0, 3.0]))] if rng.random() < 0.5 else []))
+        else:
+            how = rng.choice(['voltage', 'segments', 'radius', 'same'])
     if 'tail' in m.features and rng.random() < 0.5:
         how = 'reattach'
     if how == 'reattach':
@@ -756,7 +771,7 @@ def fuzz_variant(rng, m):
         units = _units(argv)
         if not units:
             break
-        kind = rng.choice(['number', 'number', 'number', 'delete', 'duplicate', 'swap'])
+        kind = rng.choice(['number', 'number', 'number', 'delete', 'duplicate', 'swap', 'drop_field', 'add_field'])
         u = rng.choice(units)
         if kind == 'number':
             vi = u[-1]
@@ -775,6 +790,18 @@ def fuzz_variant(rng, m):
                 fields[k] = str(int(y))
             else:
                 fields[k] = repr(round(y, 10))
+            argv[vi] = head + sep + ','.join(fields)
+        elif kind in ('drop_field', 'add_field'):
+            # the shorter / longer form of a comma list (optional trailing
+            # parameters: taper limits, tags, coordinates, end radii ...)
+            vi = u[-1]
+            txt = argv[vi]
+            head, sep, val = txt.partition('=') if txt.startswith('--') and '=' in txt else ('', '', txt)
+            fields = val.split(',')
+            if kind == 'drop_field' and len(fields) > 1:
+                fields = fields[:-1]
+            elif kind == 'add_field':
+                fields = fields + [rng.choice(['1', '2', '0.05', '3.0'])]
             argv[vi] = head + sep + ','.join(fields)
         elif kind == 'delete':
             argv = [a for i, a in enumerate(argv) if i not in u]
@@ -808,7 +835,7 @@ def gen_pool(rng, m, k=None):
     if k is None:
         k = rng.choice([2, 2, 3, 3, 4, 5])
     base = 150.0 / max(m.length, 1.0)
-    base = min(max(base, 2.0), 60.0)
+    base = min(max(base, 2.0), 900.0)
     cands = []
     probes = []
     if m.radii and rng.random() < 0.35:
